@@ -97,6 +97,12 @@ func genC17(c *mon.Ctx) []hcase {
 		if h.claimed >= 0 || h.lclass == "" {
 			h.lclass = lenClass(h.claimed)
 		}
+		if b := firstBody(h.proto, h.mode, h.stream); b > h.body || h.body == 0 {
+			h.body = b
+		}
+		if h.claimed > h.body {
+			h.body = h.claimed
+		}
 		cases = append(cases, h)
 	}
 	ivals := interesting32()
@@ -370,7 +376,7 @@ func runC17(c *mon.Ctx) {
 	const batchSize = 2500
 	const deathsBeforeRecover = 24
 	const oomBeforeSkip = 40
-	deaths, oomDeaths := 0, 0
+	deaths, oomDeaths := 0, 0 // oomDeaths also counts calls that allocated >= 256 MiB and survived
 	perFamily := map[string]int64{}
 	maxAlloc := map[string]uint64{}
 	controlsOK := int64(0)
@@ -390,12 +396,12 @@ func runC17(c *mon.Ctx) {
 		// only if the block that could not be allocated is itself above the bound.
 		opts := mon.BatchOpts{MemLimitMB: 768, Timeout: 10 * time.Minute, MaxProcs: 1}
 		if oomDeaths >= oomBeforeSkip {
-			// dozens of inputs already killed the child by allocating GiB blocks: the
-			// remaining inputs that claim >= 64 MiB would only repeat that at one process
-			// restart each
+			// dozens of inputs already killed the child by allocating GiB blocks (or survived
+			// a >= 256 MiB allocation): the remaining inputs whose prefix claims >= 64 MiB
+			// would only repeat that, at seconds each
 			kept := batch[:0:0]
 			for _, h := range batch {
-				if h.claimed >= 1<<26 {
+				if h.body >= 1<<26 {
 					c.Add("inputs_skipped_after_repeated_oom", 1)
 					continue
 				}
@@ -499,6 +505,9 @@ func runC17(c *mon.Ctx) {
 			key := label + "/" + modeName[h.mode]
 			if res.MaxAlloc > maxAlloc[key] {
 				maxAlloc[key] = res.MaxAlloc
+			}
+			if res.MaxAlloc >= 256<<20 {
+				oomDeaths++
 			}
 			if res.MaxAlloc > allocBound {
 				wit["max_alloc_bytes"] = res.MaxAlloc
